@@ -66,22 +66,6 @@ theorem same_jsonToValueFields : ∀ kvs : List (String × Json), Json.okFields 
 end
 
 mutual
-/-- values JSON can carry without loss: no timestamp/duration (they become plain numbers), floats finite -/
-def Value.plain : Value → Bool
-  | .null | .bool _ | .int _ | .str _ => true
-  | .float f => f.isFinite
-  | .timestamp _ | .duration _ => false
-  | .array xs => Value.plainList xs
-  | .map kvs => Value.plainFields kvs
-def Value.plainList : List Value → Bool
-  | [] => true
-  | x :: xs => x.plain && Value.plainList xs
-def Value.plainFields : List (String × Value) → Bool
-  | [] => true
-  | (_, v) :: kvs => v.plain && Value.plainFields kvs
-end
-
-mutual
 theorem same_valueToJson : ∀ v : Value, v.plain = true → same (valueToJson v) v = true
   | .null, _ => by simp [valueToJson, same]
   | .bool _, _ => by simp [valueToJson, same]
